@@ -162,7 +162,7 @@ def main():
             "enable": "none: the checks are static analyses of /repo's source; no instrumentation is compiled in and no source commit uses the guard",
             "baseline_off_cmd": "cd /repo && /venv/bin/python -m pytest -ra -q -p no:cacheprovider --timeout=900 --continue-on-collection-errors --junitxml=/tmp/optuna_baseline.junit.xml",
             "source_commits": [],
-            "fix_commits": ["899865b", "bf20abd", "1904569", "255ec62", "eeba606", "b748d1a", "f27ae56", "503aa71", "b3b6513", "cbd503d", "5750c37", "749e06e", "f399ea2", "f103614", "939c19e", "33e60f9", "94707fb", "eb8d4ba", "d250f8b", "48d371c", "45a0361", "adb8439", "d0662f4", "3dc12ff", "b643a49", "aaf18b7", "9f97621", "946c5e6"],
+            "fix_commits": ["899865b", "bf20abd", "1904569", "255ec62", "eeba606", "b748d1a", "f27ae56", "503aa71", "b3b6513", "cbd503d", "5750c37", "749e06e", "f399ea2", "f103614", "939c19e", "33e60f9", "94707fb", "eb8d4ba", "d250f8b", "48d371c", "45a0361", "adb8439", "d0662f4", "3dc12ff", "b643a49", "aaf18b7", "9f97621", "946c5e6", "04a9fbc"],
             "add_only": True,
         },
         "engines": [{
